@@ -19,7 +19,8 @@
    call name ys (arguments are moved left to right) | use x | swap x y | append x y
    (x.append(<-y)) | fassign x y (x <-! y) | assign x y (x <- y) | shift z x y (var z <- x <- y) |
    cmove x (x is moved inside a CONDITIONALLY EVALUATED operand: c && f(<-x), c || f(<-x), o ?? f(<-x),
-   c ? f(<-x) : 0 -- the move happens or not, nondeterministically) |
+   c ? f(<-x) : 0, and the argument list of an optional-chaining call o?.m(<-x), o?.m(f(<-x)), o?.m([f(<-x)]),
+   o?.m(c ? f(<-x) : 0): nothing is evaluated when the receiver is nil -- the move happens or not, nondeterministically) |
    if then else | iflet y x then else (if let y <- x) | while body | for body | break | continue |
    return [x] | panic | fun name params body (nested function: analysed as its own entry point).
 
